@@ -46,6 +46,59 @@ Q3: !protocol
     d: E2
 """
 
+# many independent occasions for an unordered iteration to show: unions that are still open over several type parameters (one
+# converter / template parameter list each), named types holding several different nested unions (one class file each), several
+# instantiations of every generic, maps of all of them
+MANY = """
+Ei2<L, R>: [L, R]
+Ei2n<L, R>: [null, L, R]
+Ei3<A, B, C>: [A, B, C]
+Ei4<A, B, C, D>: [A, B, C, D]
+Fb<P, S>: !union
+  primary: P
+  secondary: S
+Tri<X, Y, Z>: !record
+  fields:
+    xy: [X, Y]
+    yz: [null, Y, Z]
+    all: Ei3<X, Y, Z>
+    m: string->Ei2<Z, X>
+Nest: !union
+  ints: !vector {items: [int, float]}
+  strs: !vector {items: [string, float]}
+  maps: !map {keys: string, values: [bool, int]}
+NestRec: !record
+  fields:
+    a: !vector {items: [int, string]}
+    b: !vector {items: [float, bool]}
+    c: !array {items: [long, string], dimensions: 2}
+NestVec: !vector
+  items: !map {keys: string, values: [int, double]}
+I1: Ei2<int, string>
+I2: Ei2<string, int>
+I3: Ei3<int, string, float>
+I4: Ei4<int, string, float, bool>
+I5: Tri<int, string, float>
+I6: Tri<E1, R2, U2>
+I7: Fb<int, R2>
+I8: Ei2n<R2, E1>
+QM: !protocol
+  sequence:
+    s1: I1
+    s2: I2
+    s3: !stream
+      items: I3
+    s4: I4
+    s5: I5
+    s6: I6*
+    s7: I7?
+    s8: I8
+    s9: Nest
+    s10: NestRec
+    s11: NestVec
+    s12: Ei2<Nest, NestRec>
+"""
+
 # unchanged aliases of named types, used in nested positions of protocol steps that did change between the versions: the
 # evolution analysis has several candidate partners for each of them (the alias itself and its target)
 ALIASES = """
@@ -117,7 +170,7 @@ def main():
     yardl = build_yardl(sc)
     home = os.path.join(sc, "home")
     thorough = c.tier == "thorough"
-    nruns = 25 if thorough else 6
+    nruns = 30 if thorough else 10
 
     for cfg in ("MCDeterminism.cfg", "MCDeterminismPosOnly.cfg"):
         res = tlc("Determinism", cfg=cfg, timeout=300)
@@ -138,6 +191,7 @@ def main():
     V0_MORE = RICH.replace("Imp1.T1", "Imp1.T1")      # the previous version had all of it: removing it now yields several warnings
     scenarios = [
         ("valid-rich", "generate", lambda r: proj(r, RICH)),
+        ("valid-many-open-unions", "generate", lambda r: proj(r, RICH + MANY)),
         ("valid-rich-validate", "validate", lambda r: proj(r, RICH)),
         ("removed-protocols-and-types", "generate", lambda r: proj(r, "", v0_extra=V0_MORE)),
         ("changed-definitions", "generate", lambda r: proj(r, RICH.replace("t2: T2*", "t2: T2*\n    t3: T1?").replace("values: [a, b, c]", "values: [a, b, c]").replace("[int, string, float]", "[int, string, float, bool]"), v0_extra=V0_MORE)),
